@@ -51,4 +51,22 @@ MUTANTS = [
     ("c02-callback-after-store", "C02", "canopen/node/local.py", "        for callback in self._write_callbacks:\n            callback(index=index, subindex=subindex, od=obj, data=data)", "        for callback in self._write_callbacks[:1]:\n            callback(index=index, subindex=subindex, od=obj, data=data)"),
     ("c02-exp-nosize-length", "C02", S, "            else:\n                size = 4\n            self._node.set_data", "            else:\n                size = 3\n            self._node.set_data"),
     ("c02-upload-mux-echo", "C02", S, "        SDO_STRUCT.pack_into(response, 0, res_command, index, subindex)\n        self.send_response(response)\n\n    def segmented_upload", "        SDO_STRUCT.pack_into(response, 0, res_command, index, 0)\n        self.send_response(response)\n\n    def segmented_upload"),
+    # ---- C06
+    ("c06-code-readonly", "C06", "canopen/node/local.py", "raise SdoAbortedError(0x06010002)", "raise SdoAbortedError(0x06010001)"),
+    ("c06-writable-check-skipped-segmented", "C06", S, "            self._node.set_data(self._index,\n                                self._subindex,\n                                self._buffer,\n                                check_writable=True)", "            self._node.set_data(self._index,\n                                self._subindex,\n                                self._buffer,\n                                check_writable=False)"),
+    ("c06-callback-before-length-check", "C06", "canopen/node/local.py", "        # Check length matches type (length of od variable is in bits)\n        if obj.data_type in objectdictionary.NUMBER_TYPES and (\n            not 8 * len(data) == len(obj)\n        ):\n            raise SdoAbortedError(0x06070010)\n\n        # Try callbacks\n        for callback in self._write_callbacks:\n            callback(index=index, subindex=subindex, od=obj, data=data)", "        # Try callbacks\n        for callback in self._write_callbacks:\n            callback(index=index, subindex=subindex, od=obj, data=data)\n\n        if obj.data_type in objectdictionary.NUMBER_TYPES and (\n            not 8 * len(data) == len(obj)\n        ):\n            raise SdoAbortedError(0x06070010)"),
+    ("c06-abort-code-truncated", "C06", C, 'abort_code, = struct.unpack_from("<L", response, 4)', 'abort_code, = struct.unpack_from("<L", response, 4)\n            abort_code &= 0x7FFFFFFF'),
+    ("c06-subindex-check", "C06", "canopen/node/local.py", "raise SdoAbortedError(0x06090011)", "raise SdoAbortedError(0x06020000)"),
+    ("c06-toggle-upload-unchecked", "C06", S, "    def segmented_upload(self, command):\n        if command & TOGGLE_BIT != self._toggle:", "    def segmented_upload(self, command):\n        if False and command & TOGGLE_BIT != self._toggle:"),
+    ("c06-length-check-floats-only-ints", "C06", "canopen/node/local.py", "if obj.data_type in objectdictionary.NUMBER_TYPES and (", "if obj.data_type in objectdictionary.INTEGER_TYPES and ("),
+    ("c06-abort-mux-stale", "C06", S, "        _, index, subindex = SDO_STRUCT.unpack_from(request)\n        self._index = index\n        self._subindex = subindex\n        res_command = RESPONSE_UPLOAD | SIZE_SPECIFIED", "        _, index, subindex = SDO_STRUCT.unpack_from(request)\n        res_command = RESPONSE_UPLOAD | SIZE_SPECIFIED"),
+    ("c06-close-after-abort", "C06,C07", C, "        except SdoError:\n            # The transfer is over, there is nothing left to finish in close()\n            self._done = True\n            raise", "        except SdoError:\n            raise"),
+    # ---- C03
+    ("c03-send-lock-removed", "C03", "canopen/network.py", "        with self.send_lock:\n            self.bus.send(msg)", "        if True:\n            self.bus.send(msg)"),
+    ("c03-shared-response-queue", "C03", C, "        SdoBase.__init__(self, rx_cobid, tx_cobid, od)\n        self.responses = queue.Queue()", "        SdoBase.__init__(self, rx_cobid, tx_cobid, od)\n        self.responses = SdoClient._shared if hasattr(SdoClient, '_shared') else SdoClient.__dict__.get('_shared') or setattr(SdoClient, '_shared', queue.Queue()) or SdoClient._shared"),
+    ("c03-domain-not-forced-segment-and-truncated", "C03", "canopen/sdo/base.py", "self.sdo_node.download(self.od.index, self.od.subindex, data, force_segment)", "self.sdo_node.download(self.od.index, self.od.subindex, data[:127], force_segment)"),
+    ("c03-server-shared-buffer", "C03", S, "            self._buffer = bytearray()\n            self._toggle = 0\n\n        SDO_STRUCT.pack_into(response, 0, res_command, index, subindex)", "            SdoServer._buffer = bytearray()\n            self._toggle = 0\n\n        SDO_STRUCT.pack_into(response, 0, res_command, index, subindex)"),
+    ("c03-name-lookup-first-match", "C03", O, "        item = self.names.get(subindex) or self.subindices.get(subindex)\n        if item is None:\n            raise KeyError(f\"Subindex {pretty_index(None, subindex)} was not found\")", "        item = self.names.get(subindex) or self.subindices.get(subindex if not isinstance(subindex, int) else (subindex if subindex < 20 else 1))\n        if item is None:\n            raise KeyError(f\"Subindex {pretty_index(None, subindex)} was not found\")"),
+    ("c03-real32-as-real64", "C03", O, 'REAL32: struct.Struct("<f")', 'REAL32: struct.Struct("<e")'),
+    ("c03-unicode-utf8", "C03", O, 'return value.encode("utf_16_le")', 'return value.encode("utf_8")'),
 ]
